@@ -9,6 +9,7 @@
    [ack_in_hand s] = the acknowledgement the write loop is holding, if any; [ackq s] = the queue. *)
 From Coq Require Import NArith List Bool Sorted.
 From LLRP Require Import Client.Types Client.Model Client.InvAck Client.C07Proofs.
+From LLRP Require Client.C07Liveness.
 Import ListNotations.
 Open Scope N_scope.
 
@@ -82,6 +83,46 @@ Theorem C07_ack_written_next : forall cfg s i,
   f_typ (o_frame (stamp_o cfg (version s) (ack_frame i))) = T_KeepAliveAck.
 Proof. exact ack_written_next. Qed.
 Print Assumptions C07_ack_written_next.
+
+(* 7. (added after the round-3 seeded changes) no bound on outstanding requests: accepting a queued
+      request never looks at how many requests are already awaiting replies — for ANY state, i.e. any
+      size of the awaiting map — and leaves the acknowledgement queue alone; with 6. acknowledging is
+      enabled whatever the awaiting map is, and "take it, write it" is a two-step run from any state *)
+Theorem C07_accept_any_outstanding : forall cfg s c r,
+  writer s = WInner -> lookup c (callers s) = Some (Queued r) -> q_wait r = true ->
+  let s' := step cfg s (WAccept c) in
+  let id := if q_id r =? 0 then next_id s else q_id r in
+  (exists o, writer s' = WHolding o /\ o_src o = Some c /\ f_id (o_frame o) = id) /\
+  lookup id (awaiting s') = Some c /\ ackq s' = ackq s /\ ka_log s' = ka_log s.
+Proof. exact C07Liveness.accept_any_outstanding. Qed.
+Print Assumptions C07_accept_any_outstanding.
+
+(* 8. liveness after an overflow of the backlog: from ANY state with the write loop at its select —
+      whatever the history is, in particular however many keep-alives were dropped before (ka_log
+      arbitrary), and whatever is outstanding — once the peer reads, the queued acknowledgements are
+      written in order and the queue is empty ... *)
+Theorem C07_backlog_drains : forall cfg q s,
+  writer s = WTop -> ackq s = q ->
+  let s' := run_from cfg s (C07Liveness.drain_events (length q)) in
+  writer s' = WTop /\ ackq s' = [] /\ acked s' = acked s ++ q /\
+  reader s' = reader s /\ ka_log s' = ka_log s /\ awaiting s' = awaiting s /\ closed s' = closed s.
+Proof. exact C07Liveness.drain_acks. Qed.
+Print Assumptions C07_backlog_drains.
+
+(* ... and a keep-alive that arrives after the drain finds an empty queue, is enqueued and is
+      acknowledged by the next two write-loop steps.  (The handler table is part of [config], constant
+      during a run: "a panic does not unregister the handler" is tied to the code by the
+      overflow-then-drain scripts of the check, not proved.) *)
+Theorem C07_ack_after_overflow_and_drain : forall cfg s f h,
+  ack_handler cfg = true -> f_typ f = T_KeepAlive ->
+  writer s = WTop -> reader s = RRead ->
+  let s1 := run_from cfg s (C07Liveness.drain_events (length (ackq s))) in
+  let s2 := run_from cfg s1 [RFrame f h; WTakeAck; WWriteHdr] in
+  acked s1 = acked s ++ ackq s /\ ackq s1 = [] /\
+  ka_log s2 = ka_log s ++ [(f_id f, O)] /\
+  acked s2 = acked s ++ ackq s ++ [f_id f] /\ ackq s2 = [] /\ writer s2 = WTop.
+Proof. exact C07Liveness.ack_after_drain. Qed.
+Print Assumptions C07_ack_after_overflow_and_drain.
 
 (* ---- non-vacuity: negotiation in progress, two requests outstanding, a burst of 7 keep-alives
    while the peer does not read: the first is in the write loop's hand, five are queued, the
